@@ -290,6 +290,11 @@ func (n *Notary) OnNewRequest(payload *payload.P2PNotaryRequest) {
 	n.reqMtx.Unlock()
 	if r.witnessInfo == nil && validationErr == nil {
 		r.witnessInfo = newInfo
+		if exists {
+			// Witnesses are not a part of the hash, the copy got with the
+			// previous requests didn't pass the verification. Take this one.
+			r.main = payload.MainTransaction.Copy()
+		}
 	}
 	// Disallow modification of a fallback transaction got from the notary
 	// request pool. Even though it has dummy Notary witness attached and its
